@@ -29,6 +29,8 @@ FUNCS = {
     "FacS": (["Set", "Map", "R"], "R"),
     "pw": (["R", "R"], "R"),
     "FacDiff": (["Set", "Map", "Set", "Map"], "R"),
+    "Exp": (["R"], "R"),
+    "Log": (["R"], "R"),
 }
 _z3f = {}
 
@@ -124,7 +126,7 @@ def to_lean(t):
         fixed = {"d1": "DimS1", }
         args = " ".join(f"({to_lean(x)})" for x in t[2:])
         head = {"d1": "d1", "r1": "r1", "f1": "f1", "DimS": "LinS d1", "RootS": "LinS r1", "FacS": "FacS f1",
-                "pw": "Real.rpow", "FacDiff": "FacDiff f1"}[t[1]]
+                "pw": "Real.rpow", "FacDiff": "FacDiff f1", "Exp": "Real.exp", "Log": "Real.log"}[t[1]]
         return f"({head} {args})"
     a = [to_lean(x) for x in t[1:]]
     if op in ("=", "+", "-", "*", "/", "<"):
